@@ -12,6 +12,6 @@ CONSTANTS
   FixSlot = TRUE
   FixPcAdd = TRUE
   FixPopAnyway = TRUE
-  Depth = 40
+  Depth = 44
 INVARIANTS Emit
 CHECK_DEADLOCK FALSE
